@@ -185,6 +185,31 @@ theorem run_hdr_latest (dec : Dec P) (s : Option String) (rs : List (Req × Beha
             simp only [issued, sessionAfter, hs, hv, if_false, getLast?_cons_or]
             cases (issued (List.take k xs)).getLast? <;> simp
 
+theorem runSteps_run (dec : Dec P) (s : Option String) (rs : List (Req × Behaviour)) :
+    (runSteps dec s rs).flatMap (·.1) = (run dec s rs).outs ∧ (runSteps dec s rs).map (·.2) = (run dec s rs).hdrs := by
+  induction rs generalizing s with
+  | nil => simp [runSteps, run]
+  | cons x xs ih => obtain ⟨r, b⟩ := x; simp [runSteps, run, (ih (sessionAfter s b)).1, (ih (sessionAfter s b)).2]
+
+theorem runInterleaved_instance (dec : Dec P) (i : Nat) (evs : List (Nat × Req × Behaviour)) :
+    ∀ σ : Nat → Option String,
+    (runInterleaved dec σ evs).filterMap (fun t => if t.1 = i then some t.2 else none)
+      = runSteps dec (σ i) (ofInstance i evs) := by
+  induction evs with
+  | nil => intro σ; simp [runInterleaved, ofInstance, runSteps]
+  | cons e es ih =>
+    intro σ
+    obtain ⟨j, r, b⟩ := e
+    by_cases h : j = i
+    · subst h
+      have := ih (fun k => if k = j then sessionAfter (σ k) b else σ k)
+      simp only [ofInstance] at this ⊢
+      simp [runInterleaved, runSteps, this]
+    · have := ih (fun k => if k = j then sessionAfter (σ k) b else σ k)
+      have hi : i ≠ j := fun e => h e.symm
+      simp only [ofInstance] at this ⊢
+      simp [runInterleaved, h, hi, this]
+
 theorem runEvents_eq (dec : Dec P) (s : Option String) (evs : List Ev) :
     (runEvents dec s evs).outs = (run dec s (beforeClose evs)).outs ∧
     (runEvents dec s evs).hdrs = (run dec s (beforeClose evs)).hdrs ∧
